@@ -195,6 +195,12 @@ func (r *GeneratorInterceptor) UnbindLocalStream(info *interceptor.StreamInfo) {
 	r.streams.Delete(info.SSRC)
 }
 
+// UnbindRemoteStream is called when the Stream is removed. Streams are registered by BindRemoteStream,
+// so this is where the generator has to stop requesting key frames for them.
+func (r *GeneratorInterceptor) UnbindRemoteStream(info *interceptor.StreamInfo) {
+	r.streams.Delete(info.SSRC)
+}
+
 // BindRTCPReader lets you modify any incoming RTCP packets. It is called once per sender/receiver, however this might
 // change in the future. The returned method will be called once per packet batch.
 func (r *GeneratorInterceptor) BindRTCPReader(reader interceptor.RTCPReader) interceptor.RTCPReader {
